@@ -95,7 +95,7 @@ def gen(run):
             yield C.case(W, H, data), "violate-" + v
     # (4) C19's streams
     for i in range(30 if quick else 1500):
-        style = "extrabits" if (i % 15 == 14) else rng.choice(["plain", "deep"])
+        style = "extrabits" if (i % 15 == 14) else rng.choice(["plain", "deep", "arbdeep"])
         W, H, data, _ = V.build_lossless(rng, style)
         valid.append((W, H, data))
         yield C.case(W, H, data), "valid-c19-" + style
